@@ -1,7 +1,7 @@
 (* Properties_C12.v — property C12 (weighted sampling follows the current weights) over the model of
    src/ompl/datastructures/PDF.h.  Statements only. *)
 From Coq Require Import List Arith Reals Floats.
-From OmplV Require Import PdfModel PdfShape PdfReal PdfFloat.
+From OmplV Require Import PdfModel PdfShape PdfReal PdfFloat RrtModel EstModel EstWeights.
 Import ListNotations.
 
 (* for EVERY arithmetic (in particular IEEE doubles with all their rounding): every reachable state has
@@ -33,6 +33,32 @@ Theorem C12_zero_weight_never_drawn :
     pdf_sample Re r 1%R p = SId id -> nth_error (data p) i = Some (id, i) -> nth i (leaves p) 0%R <> 0%R.
 Proof. exact zero_weight_never_drawn. Qed.
 
+(* ---- the structure inside a planner: geometric::EST (EST.cpp is one of the property's anchors) keeps one PDF element per motion;
+   addMotion divides every neighbour's weight w into w / (w + 1) and adds the new motion with 1 / (#neighbours + 1).  Over the reals,
+   for every symmetric distance, start set, iteration count, variate tape and sampler: after solve() the structure satisfies the
+   sum-tree invariant and the weight of motion j is exactly 1 / (1 + number of other motions within the neighbourhood radius) *)
+Theorem C12_est_weights_are_inverse_neighbourhood_counts :
+  forall (St : Type) (dist : St -> St -> R) mv sat gdist (goal_state dflt : St) (radius goal_bias : R),
+  (forall a b, dist a b = dist b a) ->
+  forall starts iters tape samples, starts <> nil ->
+  let res := est_solve Re 1%R Rdiv Rleb INR St dist mv sat gdist goal_state dflt radius goal_bias starts iters tape samples in
+  exists (tree : list (tnode St)) (pf : pdf Re),
+    fst (fst res) = map (fun n => (fst n, option_map fst (snd n))) tree /\ snd res = leaves pf /\ WInv St dist dflt radius tree pf.
+Proof. exact est_weights. Qed.
+(* and whenever the weights are in that state (they are, before every iteration), pdf_.sample(r) returns the motion whose interval
+   of cumulated weights contains r times the total: EST expands a motion with probability proportional to 1 / (1 + neighbours) *)
+Theorem C12_est_selection_rule :
+  forall (St : Type) (dist : St -> St -> R) (mv : St -> St -> bool) (sat : St -> bool) (gdist : St -> R) (dflt : St) (radius : R),
+  (forall a b, dist a b = dist b a) ->
+  forall (tree : list (tnode St)) (p : pdf Re) (r : R),
+  WInv St dist dflt radius tree p -> tree <> nil -> (0 < r <= 1)%R ->
+  exists i, pdf_sample Re r 1%R p = SId i /\ i < length tree /\
+            (prefix (leaves p) i < r * total p <= prefix (leaves p) (S i))%R /\
+            forall j, j < length tree -> nth j (leaves p) 0%R = (/ (1 + INR (others St dist dflt radius tree j)))%R.
+Proof. exact est_selection_rule. Qed.
+
+Print Assumptions C12_est_weights_are_inverse_neighbourhood_counts.
+Print Assumptions C12_est_selection_rule.
 Print Assumptions C12_structure_reachable.
 Print Assumptions C12_sample_never_out_of_bounds.
 Print Assumptions C12_sum_tree_reachable.
